@@ -99,8 +99,9 @@ deriving Repr, BEq, DecidableEq
 def DebugExpr.trace : DebugExpr → List DebugEv
   | .transparent f => [.delegate f.index]
   | .builder named ident fields =>
-    (if named then DebugEv.debugStruct ident else .debugTuple ident) ::
-      (fields.map fun f => if named then DebugEv.namedField f.member f.index else .field f.index) ++ [.finish]
+    -- names reach the formatter as string literals without the `r#` prefix of raw identifiers (`nameLit`)
+    (if named then DebugEv.debugStruct (unraw ident) else .debugTuple (unraw ident)) ::
+      (fields.map fun f => if named then DebugEv.namedField (unraw f.member) f.index else .field f.index) ++ [.finish]
 
 def evalDebug (d : DebugImpl) (variant : Nat) : List DebugEv :=
   match d.body with
